@@ -83,6 +83,9 @@ def seed_list(tier):
         {'kind': 'ioapi', 'rec': ioapi_u.recipe(nt=2, nl=2, nr=1, nc=2, nv=2, start=3, kind='bdy')},
         {'kind': 'ioapi', 'rec': ioapi_u.recipe(nt=3, nl=3, nr=2, nc=2, nv=3, start=2, masked=True)},
         {'kind': 'ioapi', 'rec': ioapi_u.recipe(nt=2, nl=1, nr=2, nc=2, nv=2, start=5, kind='disk')},
+        # a variable name of exactly 16 characters (runs into the next name in the fixed-width VAR-LIST)
+        {'kind': 'ioapi', 'rec': dict(ioapi_u.recipe(nt=2, nl=1, nr=2, nc=2, nv=2, start=0),
+                                      names=['ABCDEFGHIJKLMNOP', 'NO2'])},
         {'kind': 'griddesc', 'withcf': False, 'nsteps': 2},
         {'kind': 'griddesc', 'withcf': True, 'nsteps': 1},
         # dates beyond 19 Jan 2038 (32-bit seconds since 1970) with and without CF time variables
@@ -133,6 +136,10 @@ def menu(f):
         add('apply', n >= 1, dim=d, fn=['r', 'max'])
         add('apply', n >= 2, dim=d, fn=['f', 'diff'])
     add('mask', True, greater=10010.5)
+    # masking that also looks at coordinate variables: the time flags must come out untouched
+    # (with CF coordinate variables present the caller asks for the time coordinate itself to be masked:
+    # whatever follows cannot decode times any more - outside the domain)
+    add('mask', 'time' not in f.variables, greater=0.5, coords=True)
     if 'TSTEP' in dims:
         add('stack', True, dim='TSTEP')
     if 'LAY' in dims and dims['LAY'] >= 1 and hasattr(f, 'VGLVLS') and \
@@ -167,7 +174,7 @@ def do_op(f, op):
         fn = op['fn']
         return f.applyAlongDimensions(**{op['dim']: fn[1] if fn[0] == 'r' else rops.FUNCS[fn[1]]})
     if n == 'mask':
-        return f.mask(greater=op['greater'])
+        return f.mask(greater=op['greater'], coords=op.get('coords', False))
     if n == 'stack':
         return f.stack(f, op['dim'])
     if n == 'interpSigma':
